@@ -22,6 +22,8 @@ CONSTANTS Writers, MsgsPerWriter, Defects, InitFrames, MaxFaults, AllowBlock
 DefectNames == {"chanClose",        \* the write pump closes shipWriteChannel on exit: a blocked / late sender panics
                 "writeErrLeak",     \* closeWithError marks the connection closed before close() runs: close() returns early
                 "closeReported",    \* a transport write failing because of a local close is reported as a connection error
+                "deliverReadAfterClose", \* (a seeded change) the closed-check after a read only looks at failed reads: a frame read after the
+                                    \* connection was marked closed is still delivered
                 "frameBeforeMark"}  \* close with a reason: the close frame is written before the connection is marked closed
 ASSUME Defects \subseteq DefectNames
 Has(d) == d \in Defects
@@ -106,11 +108,13 @@ PExit        == ppc = "exit" /\ ppc' = "done" /\ wchanClosed' = (IF Has("chanClo
 RTop   == rpc = "top" /\ rpc' = (IF closeChan \/ closed THEN "done" ELSE "reading")
           /\ UNCHANGED <<closed, closedErr, closeChan, wchan, wchanClosed, once, connClosed, mux, wpc, wleft, wres, ppc, pmsg, rframe, toPeer, fromPeer, eof, failNext, blocked, reports, panicked, delivered, closerDone, faults, accepted, lateDeliver, nblock, cpc, peerClosing>>
 RRead  == rpc = "reading" /\
-          \/ (fromPeer # <<>> /\ ~connClosed /\ rframe' = Head(fromPeer) /\ fromPeer' = Tail(fromPeer) /\ rpc' = "got")
+          \* ("gotLate": the read returned a frame after the connection had been marked closed)
+          \/ (fromPeer # <<>> /\ ~connClosed /\ rframe' = Head(fromPeer) /\ fromPeer' = Tail(fromPeer) /\ rpc' = (IF closed THEN "gotLate" ELSE "got"))
           \/ ((connClosed \/ (eof /\ fromPeer = <<>>)) /\ rframe' = "error" /\ rpc' = "got" /\ UNCHANGED fromPeer)
           /\ UNCHANGED <<closed, closedErr, closeChan, wchan, wchanClosed, once, connClosed, mux, wpc, wleft, wres, ppc, pmsg, toPeer, eof, failNext, blocked, reports, panicked, delivered, closerDone, faults, accepted, lateDeliver, nblock, cpc, peerClosing>>
-RGot   == rpc = "got" /\
-          (IF closed THEN rpc' = "done" /\ UNCHANGED <<once, closed, closeChan, connClosed, closedErr, reports>>
+RGot   == rpc \in {"got", "gotLate"} /\
+          (IF closed /\ ~(Has("deliverReadAfterClose") /\ rframe # "error")
+           THEN rpc' = "done" /\ UNCHANGED <<once, closed, closeChan, connClosed, closedErr, reports>>
           ELSE IF rframe = "error"
                THEN CloseEffect /\ closedErr' = TRUE /\ reports' = reports + 1 /\ rpc' = "done"
                ELSE rpc' = "checked" /\ UNCHANGED <<once, closed, closeChan, connClosed, closedErr, reports>>)
@@ -183,6 +187,8 @@ P_C13_QuietLocalClose == (closerDone /\ faults = 0) => reports = 0
 P_C13_Reported == (closed /\ ~closerDone /\ ppc = "done" /\ rpc = "done") => (reports >= 1 /\ closedErr)
 \* at most the one message that was already taken off the transport is delivered after the close
 P_C13_NoLateDelivery == lateDeliver <= 1
+\* ... and a frame the read pump took off the transport after the connection was marked closed is dropped
+P_C13_ReadAfterCloseDropped == [][rpc = "gotLate" => rpc' \in {"gotLate", "done"}]_vars
 Released == ppc = "done" /\ rpc = "done" /\ connClosed
 L_C13_Released == closed ~> Released
 ====
